@@ -2,7 +2,7 @@
 // nothing changes.  A ready filtered subscription over an idle parent; between
 // two quiescence barriers exactly one Refilter call; exhaustive over all parent
 // contents of the 2-key x {absent, l=0, l=1} universe and all ordered pairs /
-// triples of the 6-filter family; the (tiny) schedules inside each call are
+// triples of the 10-filter family; the (tiny) schedules inside each call are
 // explored completely.
 package c07
 
@@ -184,7 +184,7 @@ func Property() runner.Property {
 	return runner.Property{
 		ID:          "C07",
 		Level:       "model_checking",
-		Rule:        "all 9 parent contents over 2 keys x {absent, l=0, l=1} x all ordered pairs (quick) and triples (thorough) of the filter family {Null, All, l=1, l=0, name=a, FN(l==1), And(l=1,name=a), And(l=1,name=b)} (equal, overlapping, disjoint, accept-all, accept-none, rebuilt-equal, non-comparable); a ready SubscribeWithFilter node (and, on two contents, a SubscribeForFilter node made ready by its first Refilter) over an idle parent; one Refilter between two quiescence barriers; every interleaving inside each call (S1); oracle: exactly one Delete per cached object the new filter rejects, one Create per parent object newly accepted, nothing else; equal filter: no event, cache unchanged; A->B->A restores A's view",
+		Rule:        "all 9 parent contents over 2 keys x {absent, l=0, l=1} x all ordered pairs (quick) and triples (thorough) of the filter family {Null, All, l=1, l=0, name=a, FN(l==1), And(l=1,name=a), And(l=1,name=b), NSName(a,b), NSName(a, ns/*)} (equal, overlapping, widening by a full id / by a wildcard id, disjoint, accept-all, accept-none, rebuilt-equal, non-comparable); a ready SubscribeWithFilter node (and, on two contents, a SubscribeForFilter node made ready by its first Refilter) over an idle parent; one Refilter between two quiescence barriers; every interleaving inside each call (S1); oracle: exactly one Delete per cached object the new filter rejects, one Create per parent object newly accepted, nothing else; equal filter: no event, cache unchanged; A->B->A restores A's view",
 		Assumptions: []string{"premise of the property: subscription ready and no parent events in flight (barrier = quiescence, decided by the scheduler, not by sleeping)"},
 		Scenarios: func(tier string) []runner.Sc {
 			var out []runner.Sc
